@@ -670,6 +670,9 @@ class CallMixin:
                                   z3.Implies(z3.Select(dd, k), z3.Select(dv, k) == z3.Select(ov, k))))
         return [(SBool(e), st)]
 
+    def dm_ne(self, d, args, kwargs, st, node):
+        return [(SBool(z3.Not(v.t)), s) for v, s in self.dm_eq(d, args, kwargs, st, node)]
+
     # sets
     def sm_add(self, d, args, kwargs, st, node):
         s = st.copy()
